@@ -154,11 +154,13 @@ theorem sendClose_Ops (s : S) (c : Option Nat) (r : Option Bytes) : OpsRel s (se
     · exact sendCloseFrame_Ops _ _ _ _
 
 theorem dropConnection_Ops (s : S) (a : Bool) : OpsRel s (dropConnection s a) := by
-  unfold dropConnection
+  unfold dropConnection flushQueue
   split
-  · refine OpsRel.of_rank ?_ rfl rfl
-    show s.st.rank ≤ St.closed.rank
-    cases s.st <;> simp [St.rank]
+  · refine OpsRel.of_rank ?_ ?_ ?_
+    · show s.st.rank ≤ St.closed.rank
+      cases s.st <;> simp [St.rank]
+    · cases a <;> rfl
+    · cases a <;> rfl
   · exact OpsRel.refl s
 
 theorem failConnection_Ops (s : S) (code : Nat) : OpsRel s (failConnection s code) := by
@@ -234,12 +236,12 @@ theorem connectionLost_Ops (s : S) : OpsRel s (connectionLost s) := by
   split
   · exact OpsRel.refl s
   · refine OpsRel.of_rank ?_ ?_ ?_
-    · unfold reportClose markClosed cancelOnLost
-      split <;> split <;> (try split) <;> (simp [S.emit] <;> cases s.st <;> simp_all [St.rank])
-    · unfold reportClose markClosed cancelOnLost
-      split <;> split <;> (try split) <;> rfl
-    · unfold reportClose markClosed cancelOnLost
-      split <;> split <;> (try split) <;> rfl
+    · unfold reportClose unsentUnclean markClosed cancelOnLost
+      split <;> split <;> (try split) <;> (try split) <;> (simp [S.emit] <;> cases s.st <;> simp_all [St.rank])
+    · unfold reportClose unsentUnclean markClosed cancelOnLost
+      split <;> split <;> (try split) <;> (try split) <;> rfl
+    · unfold reportClose unsentUnclean markClosed cancelOnLost
+      split <;> split <;> (try split) <;> (try split) <;> rfl
 
 theorem sendAutoPing_Ops (s : S) : OpsRel s (sendAutoPing s) := by
   unfold sendAutoPing
